@@ -124,8 +124,7 @@ Section LTS.
         + rewrite Hh in E. eauto.
         + rewrite Hh in E.
           destruct fut as [|f fut'] using rev_ind.
-          * replace (past ++ [e]) with (past ++ [e]) in E by reflexivity.
-            apply app_inj_tail in E as [E1 E2]. subst. exact Hq.
+          * apply app_inj_tail in E as [E1 E2]. subst. exact Hq.
           * clear IHfut'. rewrite app_comm_cons, app_assoc in E.
             apply app_inj_tail in E as [E1 _]. eauto.
     Qed.
